@@ -33,6 +33,13 @@ form_part = z3.Function('form_part', NAME, NAME)       # 'form.line'.split('.')[
 base_part = z3.Function('base_part', NAME, NAME)
 valid_in = z3.Function('valid', OBJ, z3.StringSort(), z3.BoolSort())   # Input.valid(string)
 
+# The catalogue is a fixed function of names (A-CAT): what a form declares depends only on its name.
+DECL_LINE = z3.Function('declares_line', NAME, z3.BoolSort())     # L is a line declared by the form form_part(L)
+REQ_LINE = z3.Function('requires_line', NAME, z3.BoolSort())      # ... and it is one of its required lines
+DECL_INPUT = z3.Function('declares_input', NAME, z3.BoolSort())
+class_part = z3.Function('class_part', NAME, NAME)                # 'form:inst' -> 'form'
+instance_part = z3.Function('instance_part', NAME, NAME)
+
 L = z3.Const('L', NAME)
 L2 = z3.Const('L2', NAME)
 Fo = z3.Const('f', OBJ)
@@ -105,6 +112,9 @@ def invariant(s):
         ('wait-on-input-is-justified', z3.ForAll([Dn, Fo], z3.Implies(s.UI.cnt[Dn][Fo] > 0, z3.Or(z3.Not(s.C.mem[Dn]), s.MI.cnt[Dn] > 0)))),
         ('met-fields-have-values', z3.ForAll([Dn], z3.Implies(s.MF.cnt[Dn] > 0, s.V.has[Dn]))),
         ('met-inputs-are-provided', z3.ForAll([Dn], z3.Implies(s.MI.cnt[Dn] > 0, s.C.mem[Dn]))),
+        ('registered-lines-belong-to-loaded-forms', z3.ForAll([L], z3.Implies(s.FM.has[L], z3.And(s.F.has[form_part(L)], DECL_LINE(L))))),
+        ('loaded-forms-have-all-their-lines-registered', z3.ForAll([L], z3.Implies(z3.And(s.F.has[form_part(L)], DECL_LINE(L)), s.FM.has[L]))),
+        ('required-lines-of-loaded-forms-are-scheduled', z3.ForAll([L], z3.Implies(z3.And(s.F.has[form_part(L)], REQ_LINE(L)), s.S.mem[L]))),
         ('tracker-lists-nonempty-F', z3.ForAll([Dn], z3.Implies(s.UF.has[Dn], s.UF.ln[Dn] >= 1))),
         ('tracker-lists-nonempty-I', z3.ForAll([Dn], z3.Implies(s.UI.has[Dn], s.UI.ln[Dn] >= 1))),
     ]
@@ -119,7 +129,8 @@ def grows(s0, s, attempted=None):
         ('inputs-only-grow', z3.ForAll([L], z3.Implies(s0.C.mem[L], s.C.mem[L]))),
         ('scheduled-only-grows', z3.ForAll([L], z3.Implies(s0.S.mem[L], s.S.mem[L]))),
         ('field-map-only-grows', z3.ForAll([L], z3.Implies(s0.FM.has[L], z3.And(s.FM.has[L], s.FM.val[L] == s0.FM.val[L])))),
-        ('input-map-only-grows', z3.ForAll([L], z3.Implies(s0.IM.has[L], z3.And(s.IM.has[L], s.IM.val[L] == s0.IM.val[L])))),
+        ('input-map-only-grows', z3.ForAll([L], z3.Implies(s0.IM.has[L], s.IM.has[L]))),
+        ('loaded-forms-only-grow', z3.ForAll([L], z3.Implies(s0.F.has[L], s.F.has[L]))),
         ('unimplemented-only-grows', z3.ForAll([L], s.N.cnt[L] >= s0.N.cnt[L])),
     ]
 
@@ -166,6 +177,7 @@ class SolverSpec(corevc.Spec):
         it.ghost['wk'] = fresh('wk', z3.ArraySort(NAME, NAME))
         it.ghost['R'] = ZBag(OBJ, name='R')
         it.ghost['inflight'] = None
+        it.run.fact(z3.ForAll([L], z3.Implies(REQ_LINE(L), DECL_LINE(L))))
         return me
 
     def st(self, it, me):
@@ -176,9 +188,13 @@ class SolverSpec(corevc.Spec):
             it.run.fact(f)
 
     def havoc(self, it, me, attrs, frame, local_names):
-        """Loop havoc: everything a loop of solve() can change."""
+        """Loop havoc: everything a loop of solve() can change (or only the listed maps)."""
         solver, values, inputs, fields, form = classes()
         a = me.attrs
+        if attrs and attrs != ['*']:
+            for nm in attrs:
+                a[nm] = ZMap.havoc(NAME, OBJ, nm)
+            return
         for nm in ('_input_map', '_field_map', 'forms'):
             a[nm] = ZMap.havoc(NAME, OBJ, nm)
         a['_v'] = AObj(values.ValueStore, {'values': ZMap.havoc(NAME, VAL, 'values')}, name='_v')
@@ -213,6 +229,7 @@ class SolverSpec(corevc.Spec):
         if k == 'field' and attr == 'form' and not args:
             return Opaque(z3.Function('form_of_field', OBJ, OBJ)(obj.ref), 'form')
         if k == 'field' and attr == 'value' and len(args) == 2:
+            it.ghost['oracle_args'] = args
             return self.line_oracle(it, obj, node)
         if k == 'input' and attr == 'valid' and len(args) == 1:
             return SV('bool', valid_in(obj.ref, to_term(args[0])))
@@ -236,8 +253,18 @@ class SolverSpec(corevc.Spec):
         s = self.st(it, me)
         r = it.run
         it.ghost['evaluations'] = it.ghost.get('evaluations', 0) + 1
+        acc = it.ghost.get('oracle_args')
+        ok_acc = False
+        if acc is not None and len(acc) == 2:
+            ai, av = acc
+            ok_acc = isinstance(ai, form.FormAccessor) and isinstance(av, form.FormAccessor) and ai.mapping is me.attrs['_i'] \
+                and av.mapping is me.attrs['_v'] and isinstance(ai.form, Opaque) and isinstance(av.form, Opaque) \
+                and ai.form.ref.sexpr() == z3.Function('form_of_field', OBJ, OBJ)(fobj.ref).sexpr() and av.form.ref.sexpr() == ai.form.ref.sexpr()
+        it.oblige(f'eval@{node.lineno}/evaluated-against-the-current-input-and-value-stores', z3.BoolVal(bool(ok_acc)))
         if r.branch(fresh('line_ok', z3.BoolSort()), where=f'oracle-ok@{node.lineno}'):
-            return wrap(fresh('value', VAL))
+            v = fresh('value', VAL)
+            it.ghost['oracle_ok'] = (name_of(fobj.ref), v)
+            return wrap(v)
         if r.branch(fresh('line_unmet', z3.BoolSort()), where=f'oracle-unmet@{node.lineno}'):
             d = fresh('dep', NAME)
             r.fact(z3.Not(s.V.has[d]))
@@ -259,31 +286,51 @@ class SolverSpec(corevc.Spec):
         # self._i[name] = value / FormAccessor(...) are handled through Opaque + native construction
         if f is form.name_and_instance:
             n = to_term(args[0])
-            return (wrap(z3.Function('class_part', NAME, NAME)(n)), wrap(z3.Function('instance_part', NAME, NAME)(n)))
+            return (wrap(class_part(n)), wrap(instance_part(n)))
         if isinstance(f, SV) and f.kind == 'obj':
             # calling a form class: self._form_map[form_name](solver=self, instance=...)
             return self.new_form(it, f, kwargs, node)
         if isinstance(f, Opaque) and f.kind == 'prompt':
             value = SV('str', fresh('answer', z3.StringSort()))
             supplied = SV('bool', fresh('supplied', z3.BoolSort()))
-            it.ghost['prompts'] = it.ghost.get('prompts', []) + [(to_term(args[0]), args[1])]
+            me = it.ghost['self']
+            s = self.st(it, me)
+            missing = to_term(args[0])
+            k = name_of(missing)
+            nb = args[1]
+            ref = me.attrs['_refused_input']
+            it.oblige(f'prompt@{node.lineno}/only-while-not-refused', z3.Not(to_term(ref)) if isinstance(ref, SV) else z3.BoolVal(ref is False))
+            it.oblige(f'prompt@{node.lineno}/asked-input-is-declared', z3.And(s.IM.has[k], s.IM.val[k] == missing))
+            it.oblige(f'prompt@{node.lineno}/asked-input-is-not-already-supplied', z3.Not(s.C.mem[k]))
+            it.oblige(f'prompt@{node.lineno}/asked-input-has-a-registered-waiting-line', z3.And(s.UI.has[k], s.UI.ln[k] >= 1))
+            is_entry = isinstance(nb, corevc.MapBagEntry) and nb.parent is s.UI
+            it.oblige(f'prompt@{node.lineno}/needed-by-is-the-list-of-lines-waiting-on-that-input',
+                      z3.And(z3.BoolVal(bool(is_entry)), (nb.k == k) if is_entry else z3.BoolVal(False)))
+            it.ghost['prompts'] = it.ghost.get('prompts', []) + [(k, value, supplied)]
             return (value, supplied)
         return NotImplemented
 
     def new_form(self, it, cls, kwargs, node):
+        """A-FORM (C17): constructing the form class registered under class_part(n) with instance_part(n)
+        yields a form named n whose inputs / lines / required lines are exactly those the catalogue declares for n."""
         nm = it.ghost.get('adding_form_name')
+        if nm is None:
+            raise Unsupported('form construction outside _add_form')
         ins, fl, req = ZBag.havoc(OBJ, 'nf.inputs'), ZBag.havoc(OBJ, 'nf.fields'), ZBag.havoc(OBJ, 'nf.required')
         for b in (ins, fl, req):
             for f in b.wf():
                 it.run.fact(f)
-        x, y = z3.Consts('_x _y', OBJ)
-        # A-FORM (C17): required lines are lines; every line/input of the form is named '<form name>.<base>'; names are unique
-        it.run.fact(z3.ForAll([x], z3.Implies(req.cnt[x] > 0, fl.cnt[x] > 0)))
-        it.run.fact(z3.ForAll([x], z3.Implies(fl.cnt[x] > 0, z3.And(form_part(name_of(x)) == nm, fl.cnt[x] == 1))))
-        it.run.fact(z3.ForAll([x], z3.Implies(ins.cnt[x] > 0, form_part(name_of(x)) == nm)))
-        it.run.fact(z3.ForAll([x, y], z3.Implies(z3.And(fl.cnt[x] > 0, fl.cnt[y] > 0, name_of(x) == name_of(y)), x == y)))
+        x = z3.Const('_x', OBJ)
+        lineobj = z3.Function(f'lineobj!{next(corevc._fresh)}', NAME, OBJ)
+        inobj = z3.Function(f'inobj!{next(corevc._fresh)}', NAME, OBJ)
+        it.run.fact(z3.ForAll([x], z3.Implies(fl.cnt[x] > 0, z3.And(fl.cnt[x] == 1, DECL_LINE(name_of(x)), form_part(name_of(x)) == nm, lineobj(name_of(x)) == x))))
+        it.run.fact(z3.ForAll([L], z3.Implies(z3.And(DECL_LINE(L), form_part(L) == nm), z3.And(fl.cnt[lineobj(L)] > 0, name_of(lineobj(L)) == L))))
+        it.run.fact(z3.ForAll([x], req.cnt[x] == z3.If(z3.And(fl.cnt[x] > 0, REQ_LINE(name_of(x))), 1, 0)))
+        it.run.fact(z3.ForAll([L], z3.Implies(REQ_LINE(L), DECL_LINE(L))))
+        it.run.fact(z3.ForAll([x], z3.Implies(ins.cnt[x] > 0, z3.And(ins.cnt[x] == 1, DECL_INPUT(name_of(x)), form_part(name_of(x)) == nm, inobj(name_of(x)) == x))))
+        it.run.fact(z3.ForAll([L], z3.Implies(z3.And(DECL_INPUT(L), form_part(L) == nm), z3.And(ins.cnt[inobj(L)] > 0, name_of(inobj(L)) == L))))
         o = Opaque(fresh('newform', OBJ), 'newform')
-        o.info = {'inputs': ins, 'fields': fl, 'required': req, 'name': nm}
+        o.info = {'inputs': ins, 'fields': fl, 'required': req, 'name': nm, 'lineobj': lineobj, 'inobj': inobj}
         it.ghost['newform'] = o
         return o
 
@@ -370,56 +417,55 @@ _spec_methods()
 
 
 def add_form_contract(spec):
-    """Caller-side contract of Solver._add_form(form_name, input_only=False)."""
+    """Caller-side contract of Solver._add_form(form_name, input_only=False) (body verified in unit _add_form)."""
     solver, values, inputs, fields, form = classes()
 
     def contract(it, me, args, kwargs, node):
         fname = to_term(args[0])
         input_only = kwargs.get('input_only', args[1] if len(args) > 1 else False)
         s0 = spec.st(it, me)
-        cpart = z3.Function('class_part', NAME, NAME)(fname)
-        if it.run.branch(z3.Not(s0.FMAP.has[cpart]), where=f'addform-unknown@{node.lineno}'):
+        if it.run.branch(z3.Not(s0.FMAP.has[class_part(fname)]), where=f'addform-unknown@{node.lineno}'):
             raise Raised(NotImplementedError('Form is not supported.'), node)
-        if it.run.branch(fresh('addform_asserts', z3.BoolSort()), where=f'addform-assert@{node.lineno}'):
-            raise Raised(AssertionError('a line or input of the form is already registered'), node)
-        # inputs registered
-        IM2 = ZMap.havoc(NAME, OBJ, '_input_map')
-        isin = z3.Function(f'declares_input!{next(corevc._fresh)}', NAME, z3.BoolSort())
-        it.run.fact(z3.ForAll([L], IM2.has[L] == z3.Or(s0.IM.has[L], isin(L))))
-        it.run.fact(z3.ForAll([L], z3.Implies(s0.IM.has[L], IM2.val[L] == s0.IM.val[L])))
-        it.run.fact(z3.ForAll([L], z3.Implies(isin(L), form_part(L) == fname)))
-        it.run.fact(z3.ForAll([L], z3.Implies(z3.And(isin(L), z3.Not(s0.IM.has[L])), name_of(IM2.val[L]) == L)))
-        me.attrs['_input_map'] = IM2
-        it.ghost['last_declares_input'] = isin
-        if input_only is True:
-            return None
-        if input_only is not False:
-            raise Unsupported('symbolic input_only')
-        isline = z3.Function(f'declares_line!{next(corevc._fresh)}', NAME, z3.BoolSort())
-        isreq = z3.Function(f'requires_line!{next(corevc._fresh)}', NAME, z3.BoolSort())
-        it.run.fact(z3.ForAll([L], z3.Implies(isreq(L), isline(L))))
-        it.run.fact(z3.ForAll([L], z3.Implies(isline(L), z3.And(form_part(L) == fname, z3.Not(s0.FM.has[L])))))
-        FM2 = ZMap.havoc(NAME, OBJ, '_field_map')
-        it.run.fact(z3.ForAll([L], FM2.has[L] == z3.Or(s0.FM.has[L], isline(L))))
-        it.run.fact(z3.ForAll([L], z3.Implies(s0.FM.has[L], FM2.val[L] == s0.FM.val[L])))
-        it.run.fact(z3.ForAll([L], z3.Implies(isline(L), name_of(FM2.val[L]) == L)))
-        me.attrs['_field_map'] = FM2
-        F2 = ZMap.havoc(NAME, OBJ, 'forms')
-        it.run.fact(z3.ForAll([L], F2.has[L] == z3.Or(s0.F.has[L], L == fname)))
-        it.run.fact(z3.ForAll([L], z3.Implies(s0.F.has[L], z3.Implies(L != fname, F2.val[L] == s0.F.val[L]))))
-        me.attrs['forms'] = F2
-        Q2 = ZBag.havoc(OBJ, 'Q')
-        for f in Q2.wf():
-            it.run.fact(f)
-        x = z3.Const('_x', OBJ)
-        it.run.fact(z3.ForAll([x], Q2.cnt[x] == s0.Q.cnt[x] + z3.If(z3.And(isreq(name_of(x)), FM2.val[name_of(x)] == x), 1, 0)))
-        me.attrs['_unattempted_fields'] = Q2
-        S2 = ZSet.havoc(NAME, 'S')
-        it.run.fact(z3.ForAll([L], S2.mem[L] == z3.Or(s0.S.mem[L], isreq(L))))
-        me.attrs['_solving_fields'] = S2
-        it.ghost['last_declares_line'] = isline
+        apply_add_form_effect(spec, it, me, fname, input_only)
         return None
     return contract
+
+
+def apply_add_form_effect(spec, it, me, fname, input_only):
+    """The state change of a completed _add_form(fname, input_only), as facts about fresh post-state maps."""
+    s0 = spec.st(it, me)
+    isin = lambda l: z3.And(DECL_INPUT(l), form_part(l) == fname)
+    isline = lambda l: z3.And(DECL_LINE(l), form_part(l) == fname)
+    isreq = lambda l: z3.And(REQ_LINE(l), form_part(l) == fname)
+    IM2 = ZMap.havoc(NAME, OBJ, '_input_map')
+    it.run.fact(z3.ForAll([L], IM2.has[L] == z3.Or(s0.IM.has[L], isin(L))))
+    it.run.fact(z3.ForAll([L], z3.Implies(z3.And(s0.IM.has[L], z3.Not(isin(L))), IM2.val[L] == s0.IM.val[L])))
+    it.run.fact(z3.ForAll([L], z3.Implies(isin(L), name_of(IM2.val[L]) == L)))
+    me.attrs['_input_map'] = IM2
+    if input_only is True:
+        return
+    if input_only is not False:
+        raise Unsupported('symbolic input_only')
+    FM2 = ZMap.havoc(NAME, OBJ, '_field_map')
+    it.run.fact(z3.ForAll([L], FM2.has[L] == z3.Or(s0.FM.has[L], isline(L))))
+    it.run.fact(z3.ForAll([L], z3.Implies(z3.And(s0.FM.has[L], z3.Not(isline(L))), FM2.val[L] == s0.FM.val[L])))
+    it.run.fact(z3.ForAll([L], z3.Implies(isline(L), name_of(FM2.val[L]) == L)))
+    me.attrs['_field_map'] = FM2
+    F2 = ZMap.havoc(NAME, OBJ, 'forms')
+    it.run.fact(z3.ForAll([L], F2.has[L] == z3.Or(s0.F.has[L], L == fname)))
+    it.run.fact(z3.ForAll([L], z3.Implies(z3.And(s0.F.has[L], L != fname), F2.val[L] == s0.F.val[L])))
+    me.attrs['forms'] = F2
+    Q2 = ZBag.havoc(OBJ, 'Q')
+    for f in Q2.wf():
+        it.run.fact(f)
+    x = z3.Const('_x', OBJ)
+    it.run.fact(z3.ForAll([x], Q2.cnt[x] == s0.Q.cnt[x] + z3.If(z3.And(isreq(name_of(x)), FM2.val[name_of(x)] == x), 1, 0)))
+    me.attrs['_unattempted_fields'] = Q2
+    S2 = ZSet.havoc(NAME, 'S')
+    it.run.fact(z3.ForAll([L], S2.mem[L] == z3.Or(s0.S.mem[L], isreq(L))))
+    me.attrs['_solving_fields'] = S2
+    it.ghost['last_requires_line'] = isreq
+    it.ghost['last_added_form'] = fname
 
 
 def attempt_field_contract(spec):
@@ -452,6 +498,10 @@ def attempt_field_contract(spec):
             it.run.fact(g)
         x = z3.Const('_x', OBJ)
         it.run.fact(z3.ForAll([x], s1.Q.cnt[x] >= pre.Q.cnt[x]))
+        it.run.fact(z3.And(s1.MI.size == pre.MI.size, z3.ForAll([L], s1.MI.cnt[L] == pre.MI.cnt[L])))
+        it.run.fact(s1.C.mem == pre.C.mem)
+        if isinstance(pre.refused, SV):
+            it.run.fact(to_term(s1.refused) == to_term(pre.refused))
         it.ghost['attempts'] = it.ghost.get('attempts', 0) + 1
         return None
     return contract
@@ -491,8 +541,39 @@ def loop_ordinal(fn, node):
     return None, len(loops)
 
 
+def add_form_loop_invariant(self, node):
+    solver, values, inputs, fields, form = classes()
+    ix, n = loop_ordinal(solver.Solver._add_form, node)
+    if n != 2 or ix is None:
+        return None
+
+    def I(it, me, frame):
+        s = self.st(it, me)
+        pre = it.ghost['pre']
+        nf = it.ghost['newform'].info
+        nm = nf['name']
+        R = it.ghost.get('R') or ZBag(OBJ, name='R')
+        x = z3.Const('_x', OBJ)
+        if ix == 0:
+            obj, M, M0, bag = nf['inobj'], s.IM, pre.IM, nf['inputs']
+            decl = lambda l: z3.And(DECL_INPUT(l), form_part(l) == nm)
+        else:
+            obj, M, M0, bag = nf['lineobj'], s.FM, pre.FM, nf['fields']
+            decl = lambda l: z3.And(DECL_LINE(l), form_part(l) == nm)
+        done = lambda l: z3.And(decl(l), R.cnt[obj(l)] == 0)
+        return [
+            ('remaining-are-declared', z3.ForAll([x], z3.And(R.cnt[x] >= 0, R.cnt[x] <= bag.cnt[x]))),
+            ('keys', z3.ForAll([L], M.has[L] == z3.Or(M0.has[L], done(L)))),
+            ('new-values', z3.ForAll([L], z3.Implies(done(L), M.val[L] == obj(L)))),
+            ('old-values', z3.ForAll([L], z3.Implies(z3.And(M0.has[L], z3.Not(done(L))), M.val[L] == M0.val[L]))),
+        ]
+    return {'inv': I, 'modifies': ['_input_map'] if ix == 0 else ['_field_map']}
+
+
 def solve_loop_invariant(self, node):
     solver, values, inputs, fields, form = classes()
+    if self.unit == '_add_form':
+        return add_form_loop_invariant(self, node)
     if self.unit != 'solve':
         return None
     ix, n = loop_ordinal(solver.Solver.solve, node)
@@ -508,10 +589,19 @@ def solve_loop_invariant(self, node):
                 ('values-never-removed', z3.ForAll([L], z3.Implies(entry.V.has[L], s.V.has[L])))]
         if ix in (0, 1):
             pass
+        if ix != 5:
+            out.append(('no-answered-input-pending-before-prompting', s.MI.size == 0))
+        if ix == 0:
+            Rk = it.ghost.get('Rk')
+            if Rk is not None:
+                out.append(('requested-forms-not-yet-loaded', z3.ForAll([Dn], z3.Implies(Rk.cnt[Dn] > 0, z3.And(z3.Not(s.F.has[Dn]), Rk.cnt[Dn] <= 1)))))
         if ix == 5:
             Rk = it.ghost.get('Rk')
             if Rk is not None:
                 out.append(('prompted-keys-are-waited-on', z3.ForAll([Dn], z3.Implies(Rk.cnt[Dn] > 0, s.UI.has[Dn]))))
+                ref = me.attrs['_refused_input']
+                out.append(('not-refused-while-prompting', z3.Not(to_term(ref)) if isinstance(ref, SV) else z3.BoolVal(ref is False)))
+                out.append(('remaining-keys-not-yet-answered', z3.ForAll([Dn], z3.Implies(Rk.cnt[Dn] > 0, z3.And(s.MI.cnt[Dn] == 0, Rk.cnt[Dn] <= 1)))))
         if ix not in (4, 6):
             out.append(('nothing-released-pending', z3.ForAll([Fo], s.R.cnt[Fo] == 0)))
         return out
@@ -535,3 +625,18 @@ def _sym_attr_call2(self, it, obj, attr, args, node):
 
 SolverSpec._sym_attr_call1 = SolverSpec.sym_attr_call
 SolverSpec.sym_attr_call = _sym_attr_call2
+
+
+def _loop_begin(self, it, me):
+    """Frame clauses of a loop invariant are relative to the state at that loop's entry."""
+    tok = it.ghost.get('entry_state')
+    it.ghost['entry_state'] = St(me.snap(), dict(it.ghost))
+    return tok
+
+
+def _loop_end(self, it, tok):
+    it.ghost['entry_state'] = tok
+
+
+SolverSpec.loop_begin = _loop_begin
+SolverSpec.loop_end = _loop_end
